@@ -26,9 +26,32 @@ CHILD = os.path.join(os.path.dirname(HERE), 'vlib', 'misuse_child.py')
 KIND = {'InvalidTestCaseError': 1, 'AbsolutePathTestCaseError': 2, 'InvalidInterestingnessTestError': 3, 'InsaneTestCaseError': 4}
 
 
+def traversable_by_others(path):
+    p = os.path.abspath(path)
+    while True:
+        try:
+            if not os.stat(p).st_mode & 0o001:
+                return False
+        except OSError:
+            return False
+        if p == '/':
+            return True
+        p = os.path.dirname(p)
+
+
+def scratch_parent(ctx):
+    """The child runs as `nobody`: its scratch tree must sit below directories that user can
+    traverse (a checkout of /verif under /root, for instance, is not).  Each case directory is
+    removed right after the case."""
+    for cand in (ctx.work, '/tmp', '/var/tmp', '/dev/shm'):
+        if os.path.isdir(cand) and traversable_by_others(cand):
+            return cand
+    return ctx.work
+
+
 def startup_case(ctx, faults, script_fault, sanity_ok):
     """faults: per test case one of ok/missing/unreadable/unwritable/absolute"""
-    base = tempfile.mkdtemp(prefix='mis-', dir=ctx.work)
+    base = tempfile.mkdtemp(prefix='mis-', dir=scratch_parent(ctx))
     os.chmod(base, 0o755)
     work = os.path.join(base, 'w')
     tmp = os.path.join(base, 't')
